@@ -646,6 +646,9 @@ def build(tier, seed):
                       ("EasyFEA/Simulations/_phasefield.py::PhaseField.Set_Iter", "EasyFEA/Simulations/_phasefield.py::PhaseField.Result"),
                       bound="3 solve/save steps on a 9-node patch, restores in the order 0, 1, 0, 2, 1, 0", timeout=300,
                       clause="every advertised result after Set_Iter(i) is the same whichever iteration was current before (no matrix of another state is reused)"))
+    obs.append(Ob("C16.restored.multimesh", C15.ob_multimesh, (), "X", ("EasyFEA/Simulations/_simu.py::_Simu.__Update_mesh", "EasyFEA/Simulations/_simu.py::_Simu.Get_K_C_M_F"),
+                  bound="one history with two meshes of the same size and a restart from an older iteration", timeout=300,
+                  clause="after Set_Iter switched to the mesh of the stored iteration, the assembled system, Wdef == 1/2 u'Ku and the value at save time agree"))
     for case in ("quad5x4", "quad4x1", "tetra"):
         obs.append(Ob(f"C16.reshape.divisible.{case}", ob_reshape_divisible, (case,), "X", ("EasyFEA/Simulations/_simu.py::_Simu.Results_Reshape_values",), bound="one structured mesh with divisible counts, one random state",
                       clause="element results are brought to the nodes (nodal vectors averaged per element) whatever divisibility relation holds between Ne, Nn and the number of components"))
